@@ -1,20 +1,19 @@
 import SaVerif.Lemmas.Ddl
-/-! A non-empty parent-closed set of nodes contains a node on a cycle (pigeonhole). -/
+import SaVerif.Lemmas.TopoCycles
+/-! A non-empty parent-closed set of nodes contains a node on a cycle (pigeonhole);
+    `OnCycle` / `Reach` are C19's (Lemmas/TopoCycles.lean). -/
 namespace SaVerif.Ddl
 open SaVerif.Topo
 
-/-- `Reach ts a b`: a path of at least one edge from `a` to `b` -/
-inductive Reach (ts : List Edge) : Nat → Nat → Prop
-  | step {a b} : (a, b) ∈ ts → Reach ts a b
-  | tail {a b c} : Reach ts a b → (b, c) ∈ ts → Reach ts a c
+/-- a path of at least one edge from `a` to `b` (so `Reach1 ts x x` is C19's `OnCycle ts x`) -/
+def Reach1 (ts : List Edge) (a b : Nat) : Prop := ∃ z, (a, z) ∈ ts ∧ Reach ts z b
 
-theorem Reach.head {ts : List Edge} {a b c : Nat} (h : (a, b) ∈ ts) (r : Reach ts b c) : Reach ts a c := by
-  induction r with
-  | step h' => exact .tail (.step h) h'
-  | tail _ h' ih => exact .tail ih h'
+theorem Reach1.tail {ts : List Edge} {a b c : Nat} (r : Reach1 ts a b) (e : (b, c) ∈ ts) : Reach1 ts a c := by
+  obtain ⟨z, hz, hr⟩ := r
+  exact ⟨z, hz, hr.tail e⟩
 
-/-- node lying on a cycle (self-loops included) -/
-def OnCycle (ts : List Edge) (x : Nat) : Prop := Reach ts x x
+theorem Reach1.step {ts : List Edge} {a b : Nat} (e : (a, b) ∈ ts) : Reach1 ts a b :=
+  ⟨b, e, .refl b⟩
 
 /-- some parent of `n` inside `S` -/
 def parentIn (ts : List Edge) (S : List Nat) (n : Nat) : Nat :=
@@ -57,19 +56,19 @@ theorem chain_mem {ts : List Edge} {S : List Nat} (hS : ∀ n ∈ S, ∃ p ∈ S
 
 /-- every node further down the chain reaches the start -/
 theorem chain_reach {ts : List Edge} {S : List Nat} (hS : ∀ n ∈ S, ∃ p ∈ S, (p, n) ∈ ts) :
-    ∀ (k n : Nat), n ∈ S → ∀ y ∈ chain ts S (parentIn ts S n) k, Reach ts y n := by
+    ∀ (k n : Nat), n ∈ S → ∀ y ∈ chain ts S (parentIn ts S n) k, Reach1 ts y n := by
   intro k
   induction k with
   | zero =>
     intro n hn y hy
     simp [chain] at hy
-    exact hy ▸ .step (parentIn_spec (hS n hn)).2
+    exact hy ▸ Reach1.step (parentIn_spec (hS n hn)).2
   | succ k ih =>
     intro n hn y hy
     have hp := parentIn_spec (hS n hn)
     simp only [chain, List.mem_cons] at hy
     rcases hy with rfl | hy
-    · exact .step hp.2
+    · exact Reach1.step hp.2
     · exact (ih _ hp.1 y hy).tail hp.2
 
 theorem chain_dup_cycle {ts : List Edge} {S : List Nat} (hS : ∀ n ∈ S, ∃ p ∈ S, (p, n) ∈ ts) :
